@@ -40,8 +40,9 @@ import (
 )
 
 const (
-	quickV, quickI       = 300, 300
-	thoroughV, thoroughI = 10000, 10000
+	quickV, quickI = 300, 300
+	// measured: ~0.5 s per world (3 proxies, -race) per process; 6000 + 6000 worlds on 6 processes stay below 25 min
+	thoroughV, thoroughI = 6000, 6000
 	caseWatchdog         = 240 * time.Second
 )
 
@@ -55,14 +56,21 @@ func main() {
 		Rule: "case = one PRNG world x 3 proxies (2 sidecars with PRNG metadata: istio version, DNS capture, HTTP/1.0, interception REDIRECT/TPROXY/NONE, dual stack; 1 router bound to the generated Gateways), " +
 			"full push through the real CDS/EDS/LDS/RDS/NDS/ECDS generators. Stratum V (case V-i): 3-8 ServiceEntries, WorkloadEntries, DestinationRules, 1-5 Gateways (clones, duplicate servers), 2-7 VirtualServices " +
 			"(http/tcp/tls, delegates), Sidecars, PeerAuthentications, EnvoyFilters from a template list, drawn from small literal pools so that hosts, wildcards, ports/protocols, VIPs, gateway servers and TLS settings collide; " +
-			"every object passed the real admission validator of its kind (rejected ones dropped and counted). Stratum I (case I-i): world V-i with ONE object damaged by ONE operator of a finite list (mutate.go) and accepted only " +
-			"if the real validator rejects the result (otherwise the case counts as stratum V). PILOT_FILTER_GATEWAY_CLUSTER_CONFIG is on in ~30% of worlds. " +
+			"every object passed the real admission validator of its kind (rejected ones dropped and counted). Stratum I (case I-i): world V-i with ONE object damaged by ONE operator of a finite list (mutate.go), passed through the " +
+			"protobuf wire encoding (only objects that can be decoded exist; no nil list elements) and accepted only if the real validator rejects the result (otherwise the case counts as stratum V, key V:admitted:op=...). " +
+			"PILOT_FILTER_GATEWAY_CLUSTER_CONFIG is on in ~30% of worlds. Asserted on every push: no panic / process crash; unique resource names per type and envelope name = payload name; every RDS name of a listener and every EDS " +
+			"service name of a cluster is answered; no domain twice (lower case) in a RouteConfiguration; no two filter chains of a listener sharing a lookup tuple of Envoy's filter chain manager; no partial wildcard server name; " +
+			"no two listeners of one socket type on one address; weighted cluster sums in (0, 2^32-1]; cluster references of route configurations whose references Envoy validates at load time (validate_clusters) resolve in CDS; " +
+			"protoc-gen-validate ValidateAll() of every message, looking through every typed Any. Counted but not asserted (unspecified or outside the property text): FractionalPercent above 1, virtual hosts sharing a name, " +
+			"ECDS names not produced, other dangling cluster references. Keys: stratum V findings carry cause=<root cause> when a recogniser (explain.go) finds the cause in the INPUT objects, else the generic rule detail; " +
+			"stratum I findings are keyed (operator, kind, rule); crashes name the panicking istio function. " +
 			"Non-trivial: all three proxies produced listeners and clusters (or a crash was observed) and the world shows >= 2 distinct interaction shapes (V) / the operator was applicable and rejected by the validator (I); distinct = hash of the object set.",
 		Assumptions: []string{
-			"trusted base: the engine's validators (check.go, pgv.go) written from the Envoy v3 API reference and Envoy's documented load-time rejections; protoc-gen-validate ValidateAll() generated in go-control-plane stands for the xDS API's own validation rules",
+			"trusted base: the engine's validators (check.go, pgv.go) written from the Envoy v3 API reference and Envoy's load-time rejections as cited in the comments of check.go (RouteMatcher: single \"*\" domain and unique domains, compared in lower case; FilterChainManagerImpl::addFilterChains: identical matches, overlapping lookup tuples, partial wildcards, server names lower-cased; ListenerImpl::hasDuplicatedAddress: also for listeners that do not bind; CDS: duplicate cluster names; weighted clusters: sum in (0, 2^32-1]); protoc-gen-validate ValidateAll() generated in go-control-plane stands for the xDS API's own validation rules",
 			"core.NewConfigGenTest (in-memory config store without validation, ServiceEntry registry, mesh config) stands for istiod's push context; generators are invoked as DiscoveryServer does for a forced full push",
-			"a route / tcp_proxy cluster reference may dangle only when it names a host:port (or subset) the proxy was not given (its SidecarScope services / destination rule), or when a user EnvoyFilter removed the cluster; otherwise it must be in CDS",
+			"an object that bypassed admission validation is still a decodable protobuf message (wire round trip); Go-only states (nil elements of repeated fields, nil map values) are not inputs",
 			"typed configs whose type is not linked into the binary are counted (any_unknown_types) and not validated",
+			"the root-cause recognisers of explain.go read the input objects only; a finding they do not recognise keeps its generic key and is a VIOLATION",
 		},
 		Anchors: []string{
 			"pilot/pkg/networking/core/", "pilot/pkg/xds/eds.go", "pilot/pkg/xds/rds.go", "pkg/config/validation/validation.go", "pilot/pkg/model/gateway.go",
@@ -70,12 +78,12 @@ func main() {
 		CrashIsViolation: true,
 		MinNontrivial: func(t string) int {
 			if t == "thorough" {
-				return 10000
+				return 6000
 			}
 			return 300
 		},
-		Batches:    func(t string) int { return map[string]int{"quick": 6, "thorough": 8}[t] },
-		Parallel:   func(t string) int { return map[string]int{"quick": 6, "thorough": 8}[t] },
+		Batches:    func(t string) int { return map[string]int{"quick": 6, "thorough": 6}[t] },
+		Parallel:   func(t string) int { return map[string]int{"quick": 6, "thorough": 6}[t] },
 		TimeoutSec: func(t string) int { return map[string]int{"quick": 900, "thorough": 5400}[t] },
 		Run:        run,
 	})
@@ -514,6 +522,7 @@ func record(c *vh.Ctx, stratum string, w *world, o *worldOutcome) (complete bool
 		c.Count("closure_eds_names_followed", st.EDSFollowed)
 		c.Count("closure_eds_empty_assignments", st.EDSEmpty)
 		c.Count("closure_ecds_names_followed", st.ECDSFollowed)
+		c.Count("unasserted_ecds_names_not_produced", st.ECDSMissing)
 		c.Count("closure_cluster_refs_followed", st.ClusterRefs)
 		for _, k := range sortedKeys(st.ClusterRefsBy) {
 			c.Count("closure_cluster_refs_"+k, st.ClusterRefsBy[k])
@@ -521,6 +530,7 @@ func record(c *vh.Ctx, stratum string, w *world, o *worldOutcome) (complete bool
 		c.Count("closure_cluster_refs_resolved_in_cds", st.RefResolved)
 		c.Count("closure_cluster_refs_bootstrap_builtin", st.RefBuiltin)
 		c.Count("closure_cluster_refs_to_unknown_service", st.RefUnknownSvc)
+		c.Count("unasserted_cluster_refs_dangling_for_known_service", st.RefDanglingKnown)
 		c.Count("closure_cluster_refs_excused_by_user_patch", st.RefExempt)
 		c.Count("closure_cluster_refs_dangling_other_name", st.RefOtherName)
 		for _, k := range sortedKeys(st.OtherNames) {
@@ -533,6 +543,8 @@ func record(c *vh.Ctx, stratum string, w *world, o *worldOutcome) (complete bool
 		c.Count("filter_chains_sharing_a_name_without_matcher", st.DupChainNames)
 		c.Count("weighted_cluster_sets_checked", st.Weighted)
 		c.Count("fraction_fields_checked", st.Fractions)
+		c.Count("unspecified_fractional_percent_above_one", st.FractionsAboveOne)
+		c.Count("unspecified_virtual_host_name_shared", st.DupVHostNames)
 		c.Count("inline_route_configs_checked", st.InlineRoutes)
 		c.Max("listeners_per_proxy", st.Resources["LDS"])
 		c.Max("clusters_per_proxy", st.Resources["CDS"])
@@ -547,12 +559,13 @@ func stratumKey(stratum, op, kind, rule string) string {
 	if stratum == "I" {
 		return fmt.Sprintf("I:op=%s:kind=%s:%s", op, kind, rule)
 	}
-	if op != "" {
-		// an object damaged by an operator that the admission validator still accepts
-		return fmt.Sprintf("V:admitted:op=%s:kind=%s:%s", op, kind, rule)
-	}
 	if strings.HasPrefix(rule, "panic:") {
+		// a crash on admission-valid input is named after the crashing function only
 		return rule
+	}
+	if op != "" && !strings.Contains(rule, ":cause=") {
+		// an object damaged by an operator that the admission validator still accepts: the operator names the input shape
+		return fmt.Sprintf("V:admitted:op=%s:kind=%s:%s", op, kind, rule)
 	}
 	return "V:" + rule
 }
@@ -647,7 +660,26 @@ func report(c *vh.Ctx, stratum, op, kind string, i int, w *world, o *worldOutcom
 				continue
 			}
 			c.Count("rule_violations_"+stratum, 1)
-			c.Violation(stratumKey(stratum, op, kind, k), fmt.Sprintf("proxy %s: %s", po.Proxy, f.Msg), payload(map[string]any{"proxy": po.Proxy, "rule": k, "all_findings_of_proxy": findingMsgs(po.Findings, 12)}))
+			ek := k
+			if stratum == "I" {
+				// a damaged object can merely uncover a cause that lies in the admission-valid objects (e.g. a broken Sidecar
+				// no longer hides a service): such a finding is keyed by that cause, like in stratum V
+				if x := explainedKey(w, po.Proxy, f); x != k {
+					c.Count("stratum_I_findings_with_a_stratum_V_cause", 1)
+					c.Violation("V:"+x, fmt.Sprintf("proxy %s: %s", po.Proxy, f.Msg), payload(map[string]any{"proxy": po.Proxy, "rule": k, "all_findings_of_proxy": findingMsgs(po.Findings, 12)}))
+					continue
+				}
+			}
+			if stratum == "V" {
+				// root cause recognised from the input shape (explain.go), else the generic key
+				ek = explainedKey(w, po.Proxy, f)
+				if ek != k {
+					c.Count("stratum_V_findings_with_recognised_cause", 1)
+				} else {
+					c.Count("stratum_V_findings_without_recognised_cause", 1)
+				}
+			}
+			c.Violation(stratumKey(stratum, op, kind, ek), fmt.Sprintf("proxy %s: %s", po.Proxy, f.Msg), payload(map[string]any{"proxy": po.Proxy, "rule": k, "all_findings_of_proxy": findingMsgs(po.Findings, 12)}))
 		}
 	}
 }
@@ -691,7 +723,7 @@ func findingKeys(o *worldOutcome) map[int]map[string]bool {
 
 func caseI(c *vh.Ctx, i int, debugOut bool) {
 	w := buildValidWorld(c, i) // the same base world as case V-i
-	op, victim := mutateWorld(c, i, w)
+	op, victim := mutateWorldCounting(c, i, w, true)
 	if victim < 0 {
 		c.Count("stratum_I_no_applicable_operator", 1)
 		c.Inconclusive("no operator applicable to this world")
@@ -749,6 +781,10 @@ func caseI(c *vh.Ctx, i int, debugOut bool) {
 
 // mutateWorld damages one object of w with one operator, both drawn from the "mutate" stream of case i.
 func mutateWorld(c *vh.Ctx, i int, w *world) (op operator, victim int) {
+	return mutateWorldCounting(c, i, w, false)
+}
+
+func mutateWorldCounting(c *vh.Ctx, i int, w *world, count bool) (op operator, victim int) {
 	r := c.Rng("mutate", i)
 	victim = -1
 	for attempt := 0; attempt < 40 && victim < 0; attempt++ {
@@ -767,10 +803,43 @@ func mutateWorld(c *vh.Ctx, i int, w *world) (op operator, victim int) {
 		if !o.Apply(r, cp.Spec) {
 			continue
 		}
+		// what the control plane can be handed is a decoded message: pass the damaged object through the wire
+		wired, ok := wireRoundTrip(cp.Spec)
+		if !ok {
+			if count {
+				c.Count("stratum_I_mutant_not_representable_on_the_wire", 1)
+			}
+			continue
+		}
+		if pm, isProto := w.Configs[ci].Spec.(proto.Message); isProto && proto.Equal(pm, wired.(proto.Message)) {
+			if count {
+				c.Count("stratum_I_operator_without_effect", 1)
+			}
+			continue
+		}
+		cp.Spec = wired
 		w.Configs[ci] = cp
 		op, victim = o, ci
 	}
 	return op, victim
+}
+
+// wireRoundTrip encodes a spec as binary protobuf and decodes it into a fresh message: the result is an
+// object that can really arrive (no nil list elements / map values, which exist only as Go values).
+func wireRoundTrip(spec config.Spec) (config.Spec, bool) {
+	m, ok := spec.(proto.Message)
+	if !ok {
+		return nil, false
+	}
+	b, err := proto.Marshal(m)
+	if err != nil {
+		return nil, false
+	}
+	out := m.ProtoReflect().New().Interface()
+	if err := proto.Unmarshal(b, out); err != nil {
+		return nil, false
+	}
+	return out, true
 }
 
 // buildValidWorldQuiet rebuilds world i without touching evidence counters.
